@@ -295,7 +295,8 @@ def build(targets=None, timeout=3000):
     """make (full .vo) under a lock; targets: list of .vo paths relative to coq/ or None = all."""
     write_coqproject()
     tg = " ".join(targets) if targets else ""
-    cmd = "flock %s/.build.lock timeout %d make -k -j16 %s" % (VERIF, timeout, tg)
+    # every single coqc is bounded (a hanging proof must not block the other checks behind the lock)
+    cmd = "flock %s/.build.lock timeout %d make -k -j16 COQC='timeout 600 coqc' %s" % (VERIF, timeout, tg)
     rc, out = sh(cmd, cwd=COQ, timeout=timeout + 60)
     return rc == 0, out
 
